@@ -262,6 +262,10 @@ fn near_misses(p: &Pos, legal: &[Mv], prev: Option<(&Pos, &[Mv])>, rng: &mut Rng
         // missing / extra capture mark, wrong suffix, dropped disambiguation, wrong promotion piece
         if body.contains('x') { out.push(s.replace('x', "")); } else if !body.starts_with('O') && m.piece != Pc::P { let mut t = body.clone(); t.insert(t.len() - 2, 'x'); out.push(t); }
         if s.ends_with('+') { out.push(body.clone()); out.push(format!("{}#", body)); } else if !s.ends_with('#') { out.push(format!("{}+", body)); }
+        // wrong letter case: a piece letter in lower case reads as a file (bxc3 is a pawn capture, Bxc3 a bishop's)
+        if m.piece != Pc::P && !body.starts_with('O') { let mut t = s.clone(); let c = t.remove(0); t.insert(0, c.to_ascii_lowercase()); out.push(t); }
+        if m.piece == Pc::P { let mut t = s.clone(); let c = t.remove(0); t.insert(0, c.to_ascii_uppercase()); out.push(t); }
+        if body.starts_with('O') { out.push(s.to_lowercase()); }
         if let Some(i) = body.find('=') { for q in ['Q', 'R', 'B', 'N', 'K'] { let mut t = body[..=i].to_string(); t.push(q); out.push(t); } out.push(body[..i].to_string()); }
         if m.piece != Pc::P && !body.starts_with('O') {
             let dest = &body[body.len() - 2..];
@@ -369,6 +373,61 @@ fn c14_position(ctx: &Ctx, l: &mut Local, root: &Pos, path: &[Mv], rng: &mut Rng
     l.distinct.push(p.key_hash());
 }
 
+/// One Game object, every ply entered as its standard label; before each ply the labels of the
+/// other side and of the previous position are offered and must be refused (unless they also
+/// denote a legal move here). Exercises whatever the game keeps between moves.
+fn c14_notation_game(ctx: &Ctx, l: &mut Local, root: &Pos, path: &[Mv]) {
+    let mut game = Game::from_board(to_engine(root), 0);
+    let mut p = root.clone();
+    let mut prev_labels: Vec<String> = vec![];
+    for (i, m) in path.iter().enumerate() {
+        let legal = p.legal_moves();
+        if legal.is_empty() { break; }
+        let replay = json!({"root_fen": root.to_fen(), "path": path_str(root, &path[..i]), "fen": p.to_fen(), "mode": "whole game typed in notation into one Game"});
+        let labels: Vec<String> = legal.iter().map(|x| p.san(x, &legal)).collect();
+        // listing the candidates is what the front ends do before every move
+        let listed = par::guarded(|| game.enumerated_candidate_moves());
+        if let Ok(listed) = &listed {
+            l.inc("candidate_listings_compared");
+            let mut a: Vec<String> = listed.iter().map(|x| x.1.clone()).collect(); a.sort();
+            let mut b2 = labels.clone(); b2.sort();
+            if a != b2 { ctx.violation("c14:listed-labels-are-not-this-position's", &format!("after {} plies typed into one game the listed candidate labels of {} are {:?}; the position's labels are {:?}", i, p.to_fen(), a, b2), replay.clone()); return; }
+        }
+        let mut other = p.clone(); other.turn = p.turn.opp(); other.ep = None;
+        let mut offers: Vec<String> = prev_labels.clone();
+        if other.is_consistent() { let ol = other.legal_moves(); offers.extend(ol.iter().map(|x| other.san(x, &ol))); }
+        offers.sort(); offers.dedup();
+        for s in offers.iter().take(24) {
+            let denotes = match parse_lenient(s) { Some(pat) => legal.iter().any(|x| lenient_match(&pat, x)), None => false };
+            if denotes { continue; }
+            let before = Snapshot::take(game.board());
+            let r = par::guarded(|| game.apply_chess_move_from_raw_algebraic_notation(s.clone()));
+            l.inc("out_of_turn_or_stale_labels_offered");
+            if let Ok(Ok(played)) = r {
+                let mut rp = replay.clone(); rp["input"] = json!(s);
+                ctx.violation("c14:accepts-string-naming-no-legal-move", &format!("in a game typed in notation, {:?} (a label of the other side or of the previous position) was accepted in {} and played {}", s, p.to_fen(), key_str(&ekey(&played))), rp);
+                return;
+            }
+            if Snapshot::take(game.board()) != before { ctx.violation("c14:rejected-input-has-an-effect", &format!("rejected input {:?} changed the game in {}", s, p.to_fen()), replay.clone()); return; }
+        }
+        let san = p.san(m, &legal);
+        let r = par::guarded(|| game.apply_chess_move_from_raw_algebraic_notation(san.clone()));
+        l.inc("plies_typed_in_notation");
+        match r {
+            Ok(Ok(played)) if ekey(&played) == rkey(m) => {}
+            Ok(Ok(played)) => { let mut rp = replay.clone(); rp["input"] = json!(san); ctx.violation("c14:accepted-input-plays-a-different-move", &format!("typing {:?} in {} played {}", san, p.to_fen(), key_str(&ekey(&played))), rp); return; }
+            Ok(Err(_)) => { let mut rp = replay.clone(); rp["input"] = json!(san); ctx.violation("c14:rejects-standard-label", &format!("after {} plies typed into one game, the standard label {:?} of the legal move {} in {} was rejected", i, san, p.uci(m), p.to_fen()), rp); return; }
+            Err(msg) => { ctx.violation(&format!("c14:panic:{}", par::last_panic_location()), &format!("typing {:?} panicked: {}", san, msg), replay); return; }
+        }
+        game.board_mut().toggle_turn();
+        p = p.make(m);
+        if observe(game.board()) != obs_of(&p) { ctx.violation("c14:accepted-input-plays-a-different-move", &format!("after typing {:?} the game is not in the rules' successor {}", san, p.to_fen()), json!({"root_fen": root.to_fen(), "path": path_str(root, &path[..=i])})); return; }
+        prev_labels = labels;
+    }
+    l.inc("games_typed_in_notation");
+    l.distinct.push(hash_bytes(path_str(root, path).join(" ").as_bytes()));
+}
+
 pub fn c14(o: &Opts) -> i32 {
     let ctx = default_ctx("C14", o, 70.0, 600.0);
     let q = ctx.quick();
@@ -380,14 +439,14 @@ pub fn c14(o: &Opts) -> i32 {
         units.push((case.root, case.path, 1, true));
     } else {
         for (i, (p, _)) in corpus.iter().enumerate() { units.push((p.clone(), vec![], o.seed + i as u64, i % 6 == 0)); }
-        for g in 0..if q { 30 } else { 300 } {
+        for g in 0..if q { 120 } else { 600 } {
             let root = match g % 3 { 0 => Pos::start(), 1 => corpus[r.below(corpus.len())].0.clone(), _ => gen::random_setup(&mut r) };
             let path = gen::random_game(&root, &mut r, gen::POLICIES[g % 5], 60);
             let step = if q { 9 } else { 5 };
             let mut k = r.below(step);
             while k <= path.len() { units.push((root.clone(), path[..k].to_vec(), o.seed * 77 + (g * 100 + k) as u64, r.chance(if q { 0.1 } else { 0.4 }))); k += step; }
         }
-        for _ in 0..if q { 60 } else { 1500 } { let prof = *r.pick(&[2usize, 3, 5, 1]); units.push((gen::random_setup_profile(&mut r, prof), vec![], r.next_u64(), r.chance(0.1))); }
+        for _ in 0..if q { 400 } else { 3000 } { let prof = *r.pick(&[2usize, 3, 5, 1]); units.push((gen::random_setup_profile(&mut r, prof), vec![], r.next_u64(), r.chance(0.1))); }
     }
     par::for_each(&units, par::threads(), |_i, (root, path, s, full)| {
         if ctx.budget_used() > 0.95 { ctx.count("positions_skipped_for_time_budget", 1); return; }
@@ -395,12 +454,31 @@ pub fn c14(o: &Opts) -> i32 {
         c14_position(&ctx, &mut l, root, path, &mut rng, *full);
         l.flush(&ctx);
     }, |_i, u, msg| ctx.violation(&format!("c14:panic:{}", par::last_panic_location()), &format!("engine panicked: {}", msg), json!({"root_fen": u.0.to_fen(), "path": path_str(&u.0, &u.1)})));
+    // whole games typed in notation into one Game (shuffling games on sparse material return to the same
+    // placement with either side to move; others are special-move rich)
+    if o.replay.is_none() {
+        let mut gr = Rng::new(o.seed).fork(tag("c14-notation-games"));
+        let mut games: Vec<(Pos, Vec<Mv>)> = vec![];
+        for (fen, ms) in [("7k/8/8/8/8/8/8/K7 w - - 0 1", vec!["a1b1", "h8g8", "b1b2", "g8h8", "b2a1"]), ("4k3/8/8/8/8/8/8/4K2R w K - 0 1", vec!["h1h2", "e8d8", "h2h1", "d8e8", "e1e2", "e8d8", "e2e1", "d8e8"])] {
+            let root = Pos::from_fen(fen).unwrap();
+            if let Ok(path) = parse_path(&root, &ms.iter().map(|s| s.to_string()).collect::<Vec<_>>()) { games.push((root, path)); }
+        }
+        for g in 0..if q { 60 } else { 600 } {
+            let root = match g % 3 { 0 => gen::random_ending(&mut gr), 1 => Pos::start(), _ => gen::random_setup(&mut gr) };
+            let policy = if g % 3 == 0 { Policy::Shuffle } else { gen::POLICIES[g % 5] };
+            let n = 30 + gr.below(50);
+            let path = gen::random_game(&root, &mut gr, policy, n);
+            games.push((root, path));
+        }
+        par::for_each(&games, par::threads(), |_i, (root, path)| { if ctx.budget_used() > 0.97 { return; } let mut l = Local::default(); c14_notation_game(&ctx, &mut l, root, path); l.flush(&ctx); },
+            |_i, u, msg| ctx.violation(&format!("c14:panic:{}", par::last_panic_location()), &format!("engine panicked: {}", msg), json!({"root_fen": u.0.to_fen(), "path": path_str(&u.0, &u.1)})));
+    }
     if !q || std::env::var("VERIF_C14_CLI").is_ok() { super::cli::c14_cli(&ctx, o); }
     ctx.sample(json!({"position": "after 1.e4 e5 2.Nf3 entered as coordinate pairs through the Game API", "inputs": ["all 4096 from/to pairs", "every standard label, e.g. Nc6", "near misses: Nxc6, Nc6+, Nbc6, N8c6, Ng8c6, labels legal only for White, labels of the previous position, junk"]}));
     ctx.finish(ctx.counter("inputs_tried"),
         "positions along seeded games played through the Game API (coordinate entry + caller-side turn toggle), corpus positions and like-piece/promotion/castling-rich set-ups; per position: all 4096 coordinate pairs (a seeded 1/16 sample of the illegal ones on most positions), every standard label of a legal move, and near-miss strings. Classes: MUST-accept (legal pair / standard SAN), MUST-reject (no legal move under the most lenient reading), DON'T-CARE (uniquely identifying but over/under-decorated: only conditional checks). Accepted => position is the reference successor of the denoted move (queen for a promoting pair), history grew by exactly that move, turn unchanged; rejected => full snapshot and history unchanged. distinct_nontrivial = distinct positions exercised",
         &["lenient reading per DESIGN A.3"],
-        &[("positions_with_all_4096_pairs", if q { 15 } else { 150 }), ("standard_labels_tried", 2000), ("near_miss_strings_tried", 5000), ("inputs_accepted", 2000)])
+        &[("positions_with_all_4096_pairs", if q { 15 } else { 150 }), ("standard_labels_tried", 2000), ("near_miss_strings_tried", 5000), ("inputs_accepted", 2000), ("plies_typed_in_notation", 1000), ("out_of_turn_or_stale_labels_offered", 5000)])
 }
 
 // ======================================================================================= C15
@@ -471,7 +549,7 @@ pub fn c15(o: &Opts) -> i32 {
     ctx.count("distinct_prefixes_in_source", prefixes.len() as u64);
     // 3. ask the engine at every trie node, at off-book siblings and on supplied positions
     #[derive(Clone)]
-    enum U { Node(Vec<String>, Pos, usize), OffBook(Vec<String>, Pos), Supplied(Pos, String, u8) }
+    enum U { Node(Vec<String>, Pos, usize), OffBook(Vec<String>, Pos), Supplied(Pos, String, u8), History(Pos, Vec<Mv>, u8) }
     let mut units: Vec<U> = nodes.iter().map(|(n, p, k)| U::Node(n.clone(), p.clone(), *k)).collect();
     let mut r = Rng::new(o.seed).fork(tag("c15"));
     for (n, p, _) in nodes.iter() {
@@ -484,6 +562,14 @@ pub fn c15(o: &Opts) -> i32 {
     let corpus = gen::corpus();
     for (i, (p, t)) in corpus.iter().enumerate() { if !q || i % 5 == 0 { units.push(U::Supplied(p.clone(), t.clone(), 1 + (i % 2) as u8)); } }
     for _ in 0..if q { 10 } else { 150 } { units.push(U::Supplied(gen::random_setup(&mut r), "random set-up".into(), 1)); }
+    // after any legal history: one Game, both sides' moves entered by the harness, the engine asked at every position
+    units.push(U::History(Pos::from_fen("7k/7p/8/8/8/8/P7/K7 w - - 0 1").unwrap(), parse_path(&Pos::from_fen("7k/7p/8/8/8/8/P7/K7 w - - 0 1").unwrap(), &["a1b1", "h8g8", "b1b2", "g8h8", "b2a1"].iter().map(|s| s.to_string()).collect::<Vec<_>>()).unwrap(), 2));
+    for g in 0..if q { 14 } else { 150 } {
+        let root = match g % 3 { 0 => gen::random_ending(&mut r), 1 => Pos::start(), _ => gen::random_setup_profile(&mut r, 0) };
+        let n = 16 + r.below(24);
+        let path = gen::random_game(&root, &mut r, if g % 3 == 0 { Policy::Shuffle } else { Policy::Uniform }, n);
+        units.push(U::History(root, path, 1 + (g % 2) as u8));
+    }
     par::for_each(&units, par::threads().min(8), |_i, u| {
         if ctx.budget_used() > 0.95 { ctx.count("units_skipped_for_time_budget", 1); return; }
         match u {
@@ -497,6 +583,19 @@ pub fn c15(o: &Opts) -> i32 {
                 ask_engine(&ctx, &mut game, p, if k > 0 { 8 } else { 1 }, src, &json!({"history": names, "fen": p.to_fen()}));
                 ctx.distinct(hash_bytes(names.join(" ").as_bytes()));
             }
+            U::History(root, path, depth) => {
+                let mut game = if *root == Pos::start() { Game::new(*depth) } else { Game::from_board(to_engine(root), *depth) };
+                let mut p = root.clone();
+                for (i, m) in path.iter().enumerate() {
+                    if ctx.budget_used() > 0.95 { break; }
+                    if (game.board().halfmove_clock() as u64) < 90 { ask_engine(&ctx, &mut game, &p, 1, "after-a-history", &json!({"root_fen": root.to_fen(), "path": path_str(root, &path[..i]), "fen": p.to_fen(), "depth": depth})); }
+                    if matches!(m.kind, Kind::Promo(x) | Kind::PromoCapture(x) if x != Pc::Q) { break; }
+                    if !matches!(par::guarded(|| game.apply_chess_move_by_from_to_coordinates(bb(m.from), bb(m.to))), Ok(Ok(_))) { ctx.count("history_could_not_be_entered_(C14_business)", 1); break; }
+                    game.board_mut().toggle_turn();
+                    p = p.make(m);
+                }
+                ctx.distinct(hash_bytes(path_str(root, path).join(" ").as_bytes()));
+            }
             U::Supplied(p, t, depth) => {
                 let mut game = Game::from_board(to_engine(p), *depth);
                 ask_engine(&ctx, &mut game, p, 3, "supplied-position", &json!({"supplied_fen": p.to_fen(), "tag": t, "depth": depth}));
@@ -509,5 +608,5 @@ pub fn c15(o: &Opts) -> i32 {
     ctx.finish(ctx.counter("book_source_moves_replayed") + ctx.counter("trie_nodes") + ctx.counter("engine_answers"),
         "every line of /repo/opening_lines.txt is replayed on the reference rules from the standard start; the compiled trie (Book::default(), rebuilt from the current file by a forced clean build) is walked completely through get_next_moves and cross-checked with the file in both directions; the engine's book-then-search move is requested 8x at every trie node with children (random book choice), once at book leaves, at off-book siblings and 3x on supplied positions (corpus and random set-ups through Game::from_board), and must be Ok(legal move) whenever a legal move exists. distinct_nontrivial = trie nodes + distinct off-book histories + distinct supplied positions queried",
         &["search depth 1-2 for the off-book answers (any legal move is accepted)"],
-        &[("trie_nodes", 50), ("engine_answers_book-node", 100), ("engine_answers_book-leaf", 10), ("engine_answers_supplied-position", 30), ("book_source_lines", 10)])
+        &[("trie_nodes", 50), ("engine_answers_book-node", 100), ("engine_answers_book-leaf", 10), ("engine_answers_supplied-position", 30), ("engine_answers_after-a-history", 100), ("book_source_lines", 10)])
 }
